@@ -75,7 +75,7 @@ pub fn budget(prop: &str, tier: &str) -> Budget {
     let quick = tier != "thorough";
     let (q, t) = match prop {
         "C03" => (4000, 120_000),
-        "C05" => (3000, 90_000),
+        "C05" => (6000, 120_000),
         "C07" => (3000, 90_000),
         "C12" => (3000, 90_000),
         "C13" => (3000, 90_000),
